@@ -4,7 +4,8 @@ import WinterProofs.Lemmas.C14Arith
 import WinterProofs.Lemmas.C14Sched
 
 namespace WinterProofs.C14
-open Model.Parallel Model.Fft WinterProofs.C09
+open Model.Parallel WinterProofs.C09
+open Model.Fft (brev permuteIndex isPow2)
 
 theorem flatMap_range'_blocks (bs S : Nat) :
     (List.range S).flatMap (fun b => List.range' (b * bs) bs) = List.range (S * bs) := by
